@@ -10,6 +10,7 @@ SPEC = {
         "pattern-id assignment is modelled as in lib/src/compiler/mod.rs c_rule: ids in declaration order, one table de-duplicating by the full identity of a pattern; the identity is abstracted to (text, tag) and the scanner to an arbitrary function from identity and buffer to a match list",
         "rule references of r are abstracted to a verdict function of the referenced rules (the same in both compilations); the harness covers them by compiling r together with its dependencies and the global rules of its namespace",
         "WASM function chunking (10 rules / 10 namespaces per function), Teddy vs Aho-Corasick and fast-scan bits are not modelled: they are covered only differentially (0-200 extra rules, up to 24 extra namespaces, fast-scan mode in 1/5 of the cases where only verdicts are compared)",
+        "exception, by design of Scanner::fast_scan(true): the matches REPORTED for a pattern may then depend on other rules (a rule using only `$a` gets one match, or all of them when another rule sharing the identical pattern uses `#a`); the `reported matches` half of the property is therefore checked only without fast scan, the verdict half in both modes",
         "K compares the documented meaning with the run in which a first rule forces the pattern search; matches of patterns the compiler anchors (`$a at <constant>` only) are predicted at that offset only, and matches are compared by K only when r's condition holds (patterns of a rule whose filesize bounds / header constraints fail are not searched) [undocumented]",
         "the pattern search is lazy by design (it runs when the first condition that needs pattern information is evaluated, never if none does) and Pattern::matches is documented as `the matches found`: the specification accepts that a scan which reports no match for any pattern of any rule corresponds to complete match lists on the other side; verdicts must always be equal",
         "evaluation of conditions is Cond/Sem.v (see C02 for its assumptions)",
@@ -22,7 +23,7 @@ RULE = ("a generated rule r (conditions as in C02) with 0-2 rules it refers to a
         "alone and embedded among 0-200 generated unrelated rules placed before/between/after in the same namespace and in up to 24 "
         "other namespaces, 40% of whose patterns are r's patterns verbatim and 30% r's text with other modifiers (nocase, wide, "
         "fullword, xor, private), with filesize bounds / header constraints / anchors of their own; slice = (r matches?, matches of "
-        "each pattern of r). A dedicated stream uses `N of <set>` with run-time N <= 0 (regression for the repaired range fast path). Non-trivial: condition of >= 5 nodes; "
+        "each pattern of r). A dedicated stream uses `N of <set>` with run-time N <= 0 (regression for the repaired range fast path); one uses `for Q of <set>` with the placeholders over the target's own patterns after at least one unrelated rule (pattern ids differ from positions); one makes the target a function of the rules it references and embeds the core after 0, 31, 32, 33, 63, 64, 65 or 200 unrelated rules, some between the referenced rules and the target (byte / word boundaries of the matching-rules bitmap). Non-trivial: condition of >= 5 nodes; "
         "distinct by (condition, number of extra rules).")
 
 
